@@ -94,6 +94,27 @@ fn run_case(line: &str, fails: &mut Vec<(String, String)>) -> String {
                             break;
                         }
                     }
+                    // the text, then its width variant (same normal form, another byte length), then that variant AGAIN, and back: whatever
+                    // the tokenizer remembers about its previous text must belong to that text
+                    {
+                        let wide: String = text.chars().map(|c| if ('!'..='~').contains(&c) { char::from_u32(c as u32 - 0x21 + 0xFF01).unwrap() } else { c }).collect();
+                        let narrow: String = text.chars().map(|c| if ('\u{ff01}'..='\u{ff5e}').contains(&c) { char::from_u32(c as u32 - 0xFF01 + 0x21).unwrap() } else { c }).collect();
+                        for variant in [wide, narrow] {
+                            if variant == text {
+                                continue;
+                            }
+                            let mut fresh = VaporettoTokenizer::new(m.load().map_err(|_| "err:model".to_string())?, ws).map_err(|_| "err".to_string())?;
+                            let want_v = collect(&mut fresh, &variant);
+                            let seq = [(&text, &toks), (&variant, &want_v), (&variant, &want_v), (&text, &toks), (&text, &toks)];
+                            for (step, (t, want)) in seq.iter().enumerate() {
+                                let got = collect(&mut tk, t);
+                                if &got != *want {
+                                    fails.push(("C16".into(), format!("wsconst {ws:?}: one tokenizer given {text:?}, {variant:?}, {variant:?}, {text:?}, {text:?} in a row yields {got:?} at step {step} ({t:?}), a new tokenizer {want:?}")));
+                                    break;
+                                }
+                            }
+                        }
+                    }
                     // a stream that the consumer drops before it is exhausted (an early stop, a sink that fails): after 0, 1, 2 tokens
                     for k in 0..3usize {
                         {
